@@ -2,9 +2,16 @@ mod bridge;
 mod c_dbus;
 #[cfg(feature = "gvariant")]
 mod c_gv;
+mod c_depth;
+mod c_crash;
+mod c_sig;
+mod c_value;
 mod enc;
 
-use vcore::run::{CaseResult, Obs, Run};
+#[global_allocator]
+static ALLOC: c_crash::CountingAlloc = c_crash::CountingAlloc;
+
+use vcore::run::{CaseFn, CaseResult, Obs, Run};
 use vcore::src::Src;
 use zvariant::serialized::Format;
 
@@ -14,10 +21,15 @@ pub struct Spec {
     pub quick: u64,
     pub thorough: u64,
     pub max_len: usize,
+    /// run by a custom driver (enumeration) instead of a random campaign
+    pub custom: bool,
 }
 
 fn spec(name: &'static str, quick: u64, thorough: u64, max_len: usize, f: impl Fn(&mut Src, &mut Obs) -> CaseResult + Sync + 'static) -> Spec {
-    Spec { name, f: Box::new(f), quick, thorough, max_len }
+    Spec { name, f: Box::new(f), quick, thorough, max_len, custom: false }
+}
+fn custom(name: &'static str, f: impl Fn(&mut Src, &mut Obs) -> CaseResult + Sync + 'static) -> Spec {
+    Spec { name, f: Box::new(f), quick: 0, thorough: 0, max_len: 0, custom: true }
 }
 
 fn main() {
@@ -50,23 +62,41 @@ fn main() {
     let specs: Vec<Spec> = match id {
         "C01" => {
             run.rule = "generated (signature, value, endian, offset 0..15, route) from a byte string; zvariant's bytes are strictly decoded by the reference unmarshaller, compared as values (dict entries as multiset) and re-marshalled byte-exactly; non-trivial = signature contains a container or string-like type and the encoding is longer than 8 bytes; distinct by hash(signature, bytes, endian, offset)".into();
-            vec![spec("dyn", 40_000, 3_000_000, 160, c_dbus::c01_dyn)]
+            vec![spec("dyn", 400_000, 20_000_000, 160, c_dbus::c01_dyn)]
         }
         "C02" => {
             run.rule = "generated (signature, value, endian, offset, route); decode(encode(v)) compared with v under the reference value AST (bitwise f64, dict as multiset) and consumed == encoded length; non-trivial = container nesting >= 2, or an empty array of a container type, or offset % 8 != 0; distinct by hash(signature, bytes, endian, offset)".into();
-            let mut v = vec![spec("dyn-dbus", 40_000, 3_000_000, 160, c_dbus::c02_dyn(Format::DBus))];
+            let mut v = vec![spec("dyn-dbus", 300_000, 10_000_000, 160, c_dbus::c02_dyn(Format::DBus))];
             #[cfg(feature = "gvariant")]
-            v.push(spec("dyn-gvariant", 40_000, 3_000_000, 160, c_dbus::c02_dyn(Format::GVariant)));
+            v.push(spec("dyn-gvariant", 300_000, 10_000_000, 160, c_dbus::c02_dyn(Format::GVariant)));
             v
         }
         "C03" => {
             run.rule = "reference-marshalled valid encodings, role-aware single and double mutations (padding, bool, terminator, lengths, truncation, UTF-8, NUL, path/signature text, signature length, fd index, pokes, insert/delete, trailing bytes) and random bytes; zvariant Ok <=> reference Accept, equal value and consumed length; non-trivial = mutated encoding rejected by the reference, or an accepted container; distinct by hash(signature, bytes)".into();
-            vec![spec("mut", 60_000, 4_000_000, 200, c_dbus::c03_case)]
+            vec![spec("mut", 500_000, 20_000_000, 200, c_dbus::c03_case)]
         }
         #[cfg(feature = "gvariant")]
         "C05" => {
             run.rule = "generated GVariant (signature incl. maybe, value, endian, offset, route) plus containers aimed at the 255/256 and 65535/65536 framing-offset thresholds (array, struct, dict entry, nested); zvariant's bytes compared byte-for-byte with the reference normal-form serialiser; non-trivial = a variable-size child inside a container (framing offsets present) or a maybe; distinct by hash(signature, bytes, endian, offset)".into();
-            vec![spec("gv", 40_000, 2_000_000, 200, c_gv::c05_case)]
+            vec![spec("gv", 60_000, 2_000_000, 200, c_gv::c05_case)]
+        }
+        "C06" => {
+            run.rule = "exhaustive: every string over the 21-symbol alphabet {all type codes, brackets, m, invalid z} up to length 5 (quick) / 6 (thorough) and over the 10-symbol container alphabet {y s v a ( ) { } m z} up to length 7 / 8, plus generated limit strings (length 250..260, array/struct/dict depth 29..35, every kind of dict key); oracle = independent recogniser of the D-Bus type grammar; non-trivial = accepted string containing a container code, or rejected for a semantic reason (key kind, empty struct, dict placement/arity, length, depth); enumerated strings are pairwise distinct by construction".into();
+            run.exhaustive = Some(true);
+            vec![custom("sig", c_sig::c06_one)]
+        }
+        "C07" => {
+            run.rule = "container chains over {array, dict, struct, variant, maybe} around a byte leaf with (arrays, structs, variants, maybes) counts from the boundary grid {0,1,2,30..34} x {0,1,2,30..34} x {0..3,30..33} x {0,1,2}, 8 orders (sorted, reversed, round-robin, variants-first, 4 shuffles), encode (nested Values) and decode (bytes from the reference marshaller/serialiser), both formats, both routes, both endians — the whole grid is enumerated; plus random counts 0..40; oracle = counting model (<=32 arrays, <=32 structs, <=64 total) and the error must be MaxDepthExceeded; non-trivial = some count within +-1 of its limit; distinct by hash of the chain description".into();
+            run.exhaustive = Some(true);
+            vec![spec("depth", 20_000, 400_000, 7, c_depth::c07_case)]
+        }
+        "C04" => {
+            run.rule = "per feature configuration ({}, gvariant, option-as-array, both — one harness build each): generated signature (maybe types also under D-Bus when the build has them) x {role-aware mutation of a valid reference encoding (D-Bus) / pokes, tail pokes, truncation, insert, delete on a reference GVariant serialisation, random bytes, structured garbage} x 12 decode targets (Value, Structure, Array, OwnedValue, String, Vec<String>, HashMap<String,Value>, tuples, Option, ObjectPath, &[u8]); oracle: no panic (catch_unwind), peak allocation during decode <= 1024*(input+signature length)+64 KiB (counting global allocator), every decoded value re-encodes without panic; non-trivial = container signature and >= 8 input bytes; distinct by hash(signature, bytes, target, format)".into();
+            vec![spec("crash", 300_000, 20_000_000, 220, c_crash::c04_case)]
+        }
+        "C08" => {
+            run.rule = "triples (a, b, c) of dynamic values of one generated type (incl. NaN, +-0, fds, maybe): b and c are copies, one-leaf near misses or fresh values; checked: reflexive/symmetric/transitive ==, cmp antisymmetric/transitive/consistent with == and partial_cmp, equal => equal hash, try_clone / try_to_owned twins keep value, equality, hash and signature, value_signature() == the type it was built with == the signature carried by its encoded variant; non-trivial = nesting depth >= 2 and the type contains a double or a dict; distinct by hash(type, a, b, c)".into();
+            vec![spec("laws", 200_000, 5_000_000, 200, c_value::c08_case)]
         }
         _ => {
             eprintln!("unknown property {id} for h_zvariant");
@@ -74,7 +104,7 @@ fn main() {
         }
     };
     if let Some(p) = replay {
-        let checks: Vec<(&str, vcore::run::CaseFn)> = specs.iter().map(|s| (s.name, &*s.f as vcore::run::CaseFn)).collect();
+        let checks: Vec<(&str, CaseFn)> = specs.iter().map(|s| (s.name, &*s.f as CaseFn)).collect();
         run.replay_file(std::path::Path::new(&p), &checks);
         run.finish();
     }
@@ -82,8 +112,43 @@ fn main() {
         run.replay_committed(s.name, &*s.f);
     }
     for s in &specs {
+        if s.custom {
+            continue;
+        }
         let n = run.pick(s.quick, s.thorough);
         run.campaign(s.name, n, s.max_len, &*s.f);
+    }
+    // custom drivers
+    match id {
+        "C06" => {
+            let f = &*specs[0].f;
+            let (l21, l10) = run.pick((5, 7), (6, 8));
+            let n21 = c_sig::count_upto(21, l21);
+            run.enumerate("sig", n21, &|i| c_sig::nth_string(c_sig::SIGMA21, i), f);
+            // the 10-symbol alphabet is a subset of the 21-symbol one: only its longer strings are new
+            let skip = c_sig::count_upto(10, l21);
+            let n10 = c_sig::count_upto(10, l10) - skip;
+            run.enumerate("sig", n10, &|i| c_sig::nth_string(c_sig::SIGMA10, i + skip), f);
+            let lim = c_sig::limit_cases();
+            run.obs.count("limit-cases", lim.len() as u64);
+            run.enumerate("sig", lim.len() as u64, &|i| lim[i as usize].clone(), f);
+            run.extra.insert("enumerated".into(), serde_json::json!({"sigma21_max_len": l21, "sigma21_strings": n21, "sigma10_max_len": l10, "sigma10_strings": n10, "limit_strings": lim.len()}));
+            if run.truncated {
+                run.exhaustive = Some(false);
+            }
+        }
+        "C07" => {
+            let f = &*specs[0].f;
+            // quick: every 4th grid point (all counts still appear with every order); thorough: all
+            let total = c_depth::grid_total();
+            let stride = run.pick(4u64, 1u64);
+            run.enumerate("depth", total / stride, &|i| c_depth::grid_case(i * stride + (i / 32) % stride), f);
+            if stride != 1 || run.truncated {
+                run.exhaustive = Some(false);
+            }
+            run.extra.insert("grid_points".into(), serde_json::json!(total / stride));
+        }
+        _ => {}
     }
     run.finish();
 }
